@@ -11,6 +11,7 @@ import struct
 from hypothesis import strategies as st
 
 from vf import core
+from vf import pins
 from vf.core import HarnessError, HypPart, Oracle
 from vf.gen import keys as K
 from vf.ref import dat_layout as L
@@ -701,9 +702,11 @@ def calibrate(ctx) -> None:
                 raise HarnessError("family attributes of %s/%s: YAML walk %r, SPSDK %r" % (name, rev, info, got))
 
 
+
 def parts(ctx):
     _STATE["work"] = ctx.work
     return [
         HypPart("dc", lambda: _dc_strategy(ctx.tier), run_dc, {"quick": 400, "thorough": 40000}),
         HypPart("elev2", lambda: _elev2_strategy(ctx.tier), run_elev2, {"quick": 100, "thorough": 8000}),
+        pins.part(["dat", "signing"], 100),  # SoC class, EdgeLock flag, hash / version-order / padding attributes per device
     ]
